@@ -530,3 +530,79 @@ def enclosing_loops(root, target):
             walk(k, loops, seen)
     walk(root, (), set())
     return found[0] if found else ()
+
+
+# ---------------------------------------------------------------------------
+# wrapper chains in node-construction values (E4)
+
+
+def contains(a, b):
+    return any(w is b for w in A.walk(a))
+
+
+def kinds_between(a, b):
+    """NodeV kinds on a path from ``a`` down to ``b`` (a wraps b)."""
+    best = []
+
+    def rec(v, acc, seen):
+        if best or id(v) in seen:
+            return
+        seen.add(id(v))
+        if v is b:
+            best.append(list(acc))
+            return
+        if isinstance(v, A.NodeV):
+            acc = acc + [v.kind]
+        for _, k in v.kids():
+            rec(k, acc, seen)
+    rec(a, [], set())
+    return best[0] if best else []
+
+
+def peel(v):
+    """One wrapper level: -> (step, inner) or None."""
+    if isinstance(v, A.Alt):
+        a, b = v.a, v.b
+        if a is b:
+            return peel(a)
+        if isinstance(a, A.NodeV) and contains(a, b):
+            return dict(kinds=kinds_between(a, b), guard=v.test, node=a,
+                        polarity=True), b
+        if isinstance(b, A.NodeV) and contains(b, a):
+            return dict(kinds=kinds_between(b, a), guard=v.test, node=b,
+                        polarity=False), a
+        for x, y, pol in ((a, b, True), (b, a, False)):
+            if isinstance(x, A.Alt):
+                r = peel(x)
+                if r is not None and r[1] is y:
+                    s = dict(r[0])
+                    s["guard"] = "%s(%s) and %s(%s)" % (
+                        "" if pol else "not ", v.test,
+                        "" if s["polarity"] else "not ", s["guard"])
+                    s["polarity"] = True
+                    return s, y
+        if isinstance(a, A.NodeV) and a.kind == "UseInternalMacro":
+            return dict(kinds=["UseInternalMacro"], guard=v.test, node=a,
+                        polarity=True, boundary=True), b
+        return None
+    if isinstance(v, A.NodeV):
+        kids = [x for x in list(v.args) + list(v.kwargs.values())
+                if isinstance(x, (A.NodeV, A.Alt))]
+        if len(kids) != 1:
+            return None
+        return dict(kinds=[v.kind], guard=None, node=v, polarity=True), kids[0]
+    return None
+
+
+def wrapper_chain(v, limit=60):
+    """Peel optional / unconditional wrappers off a node-construction value.
+    -> (steps, rest) ; step = dict(kinds=[...], guard=str|None, node=NodeV,
+    polarity=bool)"""
+    steps = []
+    for _ in range(limit):
+        r = peel(v)
+        if r is None:
+            break
+        steps.append(r[0])
+        v = r[1]
+    return steps, v
